@@ -127,7 +127,7 @@ def build_value(ty, val, scenario, events):
         return tuple(build_value(t, v, scenario, events) for t, v in zip(ty.args, val))
     if n == 'Obj':
         return build_object(ty.args[0], val, scenario, events)
-    if n in ('Opaque', 'Any'):
+    if n in ('Opaque', 'Any', 'Value'):
         if isinstance(val, dict) and '$opaque' in val:
             return OpaqueStub(val['$opaque'] or (ty.args[0] if ty.args else 'obj'), scenario, events)
         return val
